@@ -17,6 +17,24 @@ CHECKS = {
    text="For every enumerated expression shape (depth<=2 exhaustive over all 35 operators x width classes x literal classes, plus seeded deeper DAGs) the real simplify_single_expression / Simplifier<sparse,dense> / simplify_expressions is run and the solver proves input == output for ALL assignments of all symbols and array contents (unsat miter), plus independent deep type check. What is bounded is the set of shapes, not the values.",
    design_ref="DESIGN.md section 4 C01",
    note="Trusted: RefSmt (harness/src/refsmt.rs, validated by canaries + big-integer replay of every sat model), z3/cvc5 soundness on QF_ABV(+UF). Stage-1 abstraction of mul/div/rem as uninterpreted functions is only used in the sound direction (unsat). Panics of the simplifier are reported as violations (two dependency panics are recorded known findings)."),
+ "C05": dict(
+   technique="SMT translation validation of the SMT-LIB writer: text written by the real serialize_cmd is sort-checked by the z3 5.1 and cvc5 1.0 front ends and proved equivalent to an independent RefSmt encoding for all assignments",
+   category="translation_validation",
+   text="For every enumerated expression shape (every consumer operator x argument position x producer x 1-bit/wide, arrays with Bool index and/or data, 12 symbol-name classes) the real DeclareConst/DefineConst/Assert/CheckSatAssuming/GetValue text is fed to two independent solver front ends (any (error = ill-sorted) and the solver proves written term == RefSmt(expression) for ALL assignments, the Bool<->BitVec link being part of the query.",
+   design_ref="DESIGN.md section 4 C05",
+   note="Trusted: RefSmt, the sort checkers of z3/cvc5; cvc5 is skipped for terms with a non-literal value under the non-standard `as const` and sampled 1-in-4 in the quick tier. Names containing | or \\ and reserved words are outside the claim."),
+ "C11": dict(
+   technique="SMT translation validation of system transformations: every init/next/output/bad/constraint function before vs after the real pass, equivalence miter per function decided by z3 5.1 / cvc5 / z3 4.8.12 for all valuations; substitution anon:=0 for anonymous-input removal",
+   category="translation_validation",
+   text="Generated transition systems (12 topology patterns, arrays, shared sub-expressions, named nodes, anonymous inputs) and the shipped btor2 designs are run through the real simplify_expressions and replace_anonymous_inputs_with_zero; interface (inputs, states, output names, order) is compared structurally and every function pair is proved equivalent for ALL valuations of inputs and states, hence all executions by induction on steps.",
+   design_ref="DESIGN.md section 4 C11",
+   note="Trusted: RefSmt, solvers. Undecided roots of big shipped designs are listed and not counted. Systems outside the grammar's size are outside the claim."),
+ "C14": dict(
+   technique="SMT translation validation of the SMT-LIB reader: writer output (and let-introduced variants) read back by the real parse_expr/parse_command and proved equivalent to the original by solver miter; model values as printed by live z3 4.8.12 / z3 5.1 / cvc5 (incl. --dag-thresh=1 lets) read back and proved equal to the value the solver holds",
+   category="translation_validation",
+   text="Round trip for every C05 shape (expression, DefineConst/DeclareConst/Assert/CheckSatAssuming/GetValue commands, let-variants with binders that shadow declared symbols): same type and solver-proved equivalence for ALL assignments. Value forms are produced by the installed solvers themselves for 11 sorts x boundary values; every response, its token-boundary truncations and single-atom deletions are read by the real reader and must give the exact value or an error (documented todo!() panics counted, accepted).",
+   design_ref="DESIGN.md section 4 C14",
+   note="Trusted: RefSmt, solvers. parse_get_value_response is not public; value parsing is reached through public parse_expr on the value text and through the live SmtLibSolverCtx::get_value. z3 4.8.12's (lambda ...) form for Bool-valued arrays and quoted let-binder names are outside the property's list of forms."),
 }
 ALL = [f"C{i:02d}" for i in range(1, 21)]
 m = {
@@ -26,7 +44,7 @@ m = {
    "guard": "patronus_verif",
    "enable": "RUSTFLAGS=\"--cfg patronus_verif\" (set by ./check for the harness build; cargo passes it to the patronus crates built as path dependencies)",
    "baseline_off_cmd": "cd /repo && cargo nextest run --workspace --no-fail-fast --offline --test-threads 8 || cargo test --workspace --no-fail-fast --offline",
-   "source_commits": HOOK_COMMITS if (HOOK_COMMITS := []) is not None else [],
+   "source_commits": [],
    "add_only": True,
  },
  "engines": [
